@@ -1,7 +1,7 @@
-\* C14 family (quick): lifetime, deadlines, fast close, reclamation.  2 clients, DNS / non-DNS targets, ticks
+\* C14 family (quick, one client, three datagrams incl. a wrong-key one): lifetime, deadlines, fast close, reclamation.  2 clients, DNS / non-DNS targets, ticks
 SPECIFICATION Spec
 CONSTANTS
-  Clients = {1, 2}
+  Clients = {1}
   IPOf <- MCIPOf
   Keys = {1, 2}
   InitList <- MCInitList
@@ -11,14 +11,14 @@ CONSTANTS
   DnsPort = {2, 6}
   Allowed = {1, 2}
   Fam <- MCFam
-  DgAlpha <- DgC14
+  DgAlpha <- DgLong
   RpAlpha <- RpC14
   Sync = FALSE
   T = 2
   DNST = 3
   Ticks = {1, 2}
   MaxNow = 4
-  MaxDg = 2
+  MaxDg = 3
   MaxRp = 1
   MaxAssoc = 3
   Slack = 0
